@@ -909,7 +909,7 @@ C04_ALLOW = {
 
 
 MANIFEST = {
-    "technique": "static analysis: match-arm agreement over HIR, MIR dominance/def-use rules, operator reference table, call-graph panic reachability",
+    "technique": "static analysis: match-arm agreement over HIR, MIR dominance/def-use rules, operator reference table, call-graph panic reachability, bit-provenance abstract evaluation of derived builders",
     "text": "Decides structural necessary conditions of exact bit-vector evaluation on every run from rustc's HIR/MIR of the "
             "current tree: all 23 Expression variants are handled alike by every sibling function (same-named "
             "Constant method / constructor, operands in declared order, every operand visited, width function), the "
@@ -917,8 +917,10 @@ MANIFEST = {
             "reaches the num-bigint operator of its meaning with self/rhs in order and the signed view exactly for "
             "signed operators, value-derived shift amounts are bounded by the width, the evaluator rejects nothing the "
             "constructor accepts, results are built at the operand width with the right comparison polarity, and no "
-            "undischarged panic site is reachable from eval. It does not decide numeric results (masks, wrap-around and "
-            "rounding formulas, the derived sra/rotl builders' arithmetic); a wrong constant in a well-shaped formula passes.",
+            "undischarged panic site is reachable from eval; the derived builders rotl and sra produce, for 17 sampled "
+            "widths (1..128, powers of two and others) and every constant amount, a term whose bit provenance is exactly "
+            "the rotate / arithmetic shift. It does not decide numeric results of the big-integer primitives themselves "
+            "(wrap-around and rounding); a wrong constant inside such a primitive passes.",
     "note": "Trusted: rustc nightly HIR/MIR, the operator reference table CORE in fv/props/c04.py (std::ops / num-bigint "
             "semantics), allow-list of total num-bigint conversions with reasons. Overflow Asserts (debug-only) are not panic sites here.",
 }
